@@ -1,5 +1,5 @@
 #!/bin/bash
-# usage: confirm_seed.sh <agent worktree> <seed id>
+# usage: confirm_seed.sh <agent worktree | directory holding patch.diff> <seed id>
 # Confirms, in a fresh scratch copy of /repo's HEAD (not the agent's worktree), that the
 # change in <worktree>/.seed/patch.diff compiles, passes the whole existing suite, and that
 # the demonstration fails with it and passes without it. On success the change is stored
@@ -7,6 +7,7 @@
 set -u
 WT=$1; ID=$2
 SEED=$WT/.seed
+[ -s "$WT/patch.diff" ] && SEED=$WT
 export GOFLAGS=-mod=mod GOPROXY=off GOSUMDB=off GOTOOLCHAIN=local GOWORK=off
 [ -s "$SEED/patch.diff" ] || { echo "CONFIRM $ID: no patch.diff"; exit 2; }
 TMP=$(mktemp -d /tmp/confirm-XXXXXX)
